@@ -28,3 +28,4 @@ def rules(ctx):
     S.state_writer_rules(ctx)
     S.header_codec_rules(ctx)
     S.c01_r2_grow(ctx)
+    S.root_pair_rules(ctx)
